@@ -250,16 +250,11 @@ def run(ctx):
         # accepted formats
         bwd = F.trait_impl_fn("<%s as core::convert::TryFrom<&str>>" % FMT, "try_from")
         if ctx.oblige("C14|formats|table|anchor", bwd is not None, "anchor missing: TryFrom<&str> for AttestationStatementFormat", cfg=cfg):
+            from . import ftable as FT
             try:
-                _, rows = T.conversion_table(bwd, F)
-                acc = set()
-                total = False
-                for rr in rows:
-                    if rr["catchall"]:
-                        total = rr["kind"] == "err"
-                        break
-                    if rr["kind"] == "ok":
-                        acc |= rr["vals"]
-                ctx.oblige("C14|formats|table", acc == {"none", "packed"} and total, "known attestation formats are %s" % sorted(acc), cfg=cfg, where=bwd["sp"])
-            except T.Unreadable as e:
+                tab = FT.value_table(F, bwd, ["none", "packed", FT.OTHER], add_literals=True)
+                acc = {v for v, r in tab.items() if FT.classify(r)[0] == "ok"}
+                names = {v: FT.ctor_name(FT.classify(tab[v])[1]) for v in acc}
+                ctx.oblige("C14|formats|table", acc == {"none", "packed"} and names == {"none": "None", "packed": "Packed"}, "known attestation formats are %s" % sorted(names.items()), cfg=cfg, where=bwd["sp"])
+            except FT.Unreadable as e:
                 ctx.violation("C14|formats|table|unreadable", "UNREADABLE-IMPL: %s" % e, cfg=cfg)
